@@ -143,6 +143,32 @@ def check(an, rep, tier):
                         'ok' if ok else ('violation' if rv.k == 'arr' and
                                          rv.dims is not None else 'unknown'),
                         '' if ok else 'returned %r' % (rv,))
+    # the empirical CDF is right continuous: F(z) counts the samples <= z, so
+    # the lookup of a query point takes the position to the RIGHT of equal
+    # sample values
+    fcg = prog.func('stat.cdf_getter')
+    for node in ast.walk(fcg.node):
+        if isinstance(node, ast.Call) and \
+                (prog.dotted(node.func) or '').split('.')[-1] == \
+                'searchsorted':
+            side = None
+            if len(node.args) >= 3 and isinstance(node.args[2], ast.Constant):
+                side = node.args[2].value
+            for k_ in node.keywords:
+                if k_.arg == 'side' and isinstance(k_.value, ast.Constant):
+                    side = k_.value.value
+            if side is None and len(node.args) < 3 and not any(
+                    k_.arg == 'side' for k_ in node.keywords):
+                side = 'left'           # NumPy's default
+            rep.add('S-cdf', 'stat.cdf_getter', 'lookup side of the step '
+                    'function (line %d)' % node.lineno,
+                    'ok' if side == 'right' else (
+                        'violation' if side == 'left' else 'unknown'),
+                    '' if side == 'right' else 'searchsorted(.., side=%r): '
+                    'at a query point equal to a sample value the step of '
+                    'that sample is not counted (F(z) = #{x_i < z} / N '
+                    'instead of #{x_i <= z} / N)' % side,
+                    line=node.lineno, file=fcg.module.path)
     # a batch of ONE sample is a batch: with reps=1 the option comes back as
     # [1, d], like for every other batch size (the callers index it with the
     # 2-D masks of the batch)
